@@ -485,3 +485,13 @@ val fullhistogram : z list -> z list
 val count_eq : z -> z list -> z
 
 val com_sums : arr -> z list -> z -> z * z list
+
+val qf_join : z list -> z -> z -> z list
+
+val label_pairs : arr -> arr -> (z * z) list
+
+val init_classes : arr -> z list
+
+val label_classes : arr -> arr -> z list
+
+val label : arr -> arr -> z list * z
